@@ -590,6 +590,10 @@ void BW_MidiSequencer::buildSmfSetupReset(size_t trackCount)
     m_currentPosition.wait = 0.0;
     m_currentPosition.track.clear();
     m_currentPosition.track.resize(trackCount);
+
+    // The saved positions refer to the rows of the previous track data: don't keep them
+    m_trackBeginPosition = m_currentPosition;
+    m_loopBeginPosition = m_currentPosition;
 }
 
 bool BW_MidiSequencer::buildSmfTrackData(const std::vector<std::vector<uint8_t> > &trackData)
@@ -648,6 +652,7 @@ bool BW_MidiSequencer::buildSmfTrackData(const std::vector<std::vector<uint8_t> 
                 int len = snprintf(error, 150, "buildTrackData: Can't read variable-length value at begin of track %d.\n", (int)tk);
                 if((len > 0) && (len < 150))
                     m_parsingErrorsString += std::string(error, (size_t)len);
+                buildSmfSetupReset(0); // Don't leave the half-built song playable
                 return false;
             }
 
@@ -674,6 +679,7 @@ bool BW_MidiSequencer::buildSmfTrackData(const std::vector<std::vector<uint8_t> 
                 int len = snprintf(error, 150, "buildTrackData: Fail to parse event in the track %d.\n", (int)tk);
                 if((len > 0) && (len < 150))
                     m_parsingErrorsString += std::string(error, (size_t)len);
+                buildSmfSetupReset(0); // Don't leave the half-built song playable
                 return false;
             }
 
